@@ -1,12 +1,121 @@
 import Driver.Util
-open Drv
+import Faithful.Lib.RangeCache
+import Faithful.Lib.Hash
+open Drv RC
 
+/-! model side of the C17 line protocol (see /verif/harness/tree/range-cache/c17_test.go for the op lines).
+    Every state-changing op is evaluated twice, with two different map iteration orders (`[]` = the list as
+    it is, and "always insert at the end" = reversed); if the client-visible answer or the canonical state
+    differ the answer line carries `MODEL-ORDER-DEPENDENT` (never expected: `C17.setRange_order_independent`). -/
 namespace DrvC17
 
-/-- model side of the C17 line protocol: one answer line per op line -/
+structure St where
+  file : RC.Bytes := []
+  size : Int := 0
+  rc : State := State.empty
+  stack : List State := []
+
+def showBytes (b : RC.Bytes) : String :=
+  if b.length ≤ 32 then hex b else s!"{b.length}#{hexNat (H.xxhash64 b).toNat 16}"
+
+def errName : Err → String
+  | .range => "range" | .tooLarge => "toolarge" | .ctx => "ctx" | .fetch => "fetch" | .len => "len"
+
+def showRes : Res → String
+  | .ok b => showBytes b
+  | .err c => "err:" ++ errName c
+  | .panic => "panic"
+
+def showSet : SetRes → String
+  | .ok => "ok" | .errRange => "err:range" | .errLen => "err:len" | .errCtx => "err:ctx"
+
+def parseCtx (s : String) : Ctx := if s = "done" then some 0 else none
+
+def entryLe (a b : Entry) : Bool := a.s < b.s || (a.s == b.s && a.e ≤ b.e)
+
+def canon (st : State) : List (Int × Int × RC.Bytes) × Nat :=
+  ((st.cache.mergeSort entryLe).map fun en => (en.s, en.e, en.v), st.occ)
+
+def revOrder (st : State) : Order := List.replicate st.cache.length 1000000000
+
+def parseFetch (file : RC.Bytes) (start ln : Int) (m : String) : Fetch :=
+  let want := slice file start.toNat ln.toNat
+  if m = "fail" then ⟨0, true, zeros ln.toNat⟩
+  else match m.splitOn ":" with
+    | ["short", n] => let k := n.toNat!; ⟨k, false, want.take k ++ zeros (ln.toNat - k)⟩
+    | _ => ⟨ln.toNat, false, want⟩
+
+def parseExpiry (s : String) : Expiry :=
+  if s = "all" then .all
+  else if s = "none" then .keys []
+  else .keys ((s.splitOn ",").filterMap fun r =>
+    match r.splitOn "-" with
+    | [a, b] => some (a.toInt!, b.toInt!)
+    | _ => none)
+
+def parseHttp (file : RC.Bytes) (off : Int) (ln : Nat) (m : String) : List HttpResp :=
+  let honest := HttpResp.resp 206 (honestBody file off.toNat ln)
+  match m.splitOn ":" with
+  | ["st", code, body] => [.resp code.toNat! (unhex body)]
+  | ["terr", k] => List.replicate k.toNat! .transportErr ++ [honest]
+  | _ => [honest]
+
+def showRErr : RErr → String
+  | .nil => "nil" | .eof => "eof" | .unexpectedEOF => "ueof" | .other c => errName c
+
+def mark (same : Bool) (s : String) : String := if same then s else s ++ " MODEL-ORDER-DEPENDENT"
+
+def step (st : St) (l : String) : St × String :=
+  match words l with
+  | "case" :: _ => (st, "ok")
+  | "concurrent" :: _ => (st, "ok")
+  | ["new", f] => let file := unhex f; ({ file := file, size := file.length, rc := State.empty }, "ok")
+  | ["get", a, b, fm, cm] =>
+    let start := a.toInt!; let ln := b.toInt!
+    let f := parseFetch st.file start ln fm
+    let ctx := parseCtx cm
+    let r1 := getRange [] [] ctx ctx st.size st.rc start ln f
+    let ro := revOrder st.rc
+    let r2 := getRange ro ro ctx ctx st.size st.rc start ln f
+    ({ st with rc := r1.1 }, mark (r1.2 == r2.2 && canon r1.1 == canon r2.1) (showRes r1.2))
+  | ["set", a, b, v, cm] =>
+    let ctx := parseCtx cm
+    let r1 := setRange [] ctx st.size st.rc a.toInt! b.toInt! (unhex v)
+    let r2 := setRange (revOrder st.rc) ctx st.size st.rc a.toInt! b.toInt! (unhex v)
+    ({ st with rc := r1.1 }, mark (r1.2 == r2.2 && canon r1.1 == canon r2.1) (showSet r1.2))
+  | ["deleteold", e, cm] =>
+    let ctx := parseCtx cm
+    let ex := parseExpiry e
+    let r1 := deleteOld [] ctx ex.test st.rc
+    let r2 := deleteOld (revOrder st.rc) ctx ex.test st.rc
+    ({ st with rc := r1 }, mark (canon r1 == canon r2) "ok")
+  | ["occ"] => (st, toString st.rc.occ)
+  | ["dump"] =>
+    let c := canon st.rc
+    (st, s!"n={c.1.length} occ={c.2}" ++ String.join (c.1.map fun (s, e, _) => s!" {s}-{e}"))
+  | ["push"] => ({ st with stack := st.rc :: st.stack }, "ok")
+  | ["pop"] =>
+    match st.stack with
+    | s :: rest => ({ st with rc := s, stack := rest }, "ok")
+    | [] => (st, "bad-op")
+  | ["readat", a, b, m] =>
+    let off := a.toInt!; let ln := b.toNat!
+    let f := remoteReadAt true ln (parseHttp st.file off ln m)
+    let r1 := readAt [] [] st.size st.rc ln off f
+    let ro := revOrder st.rc
+    let r2 := readAt ro ro st.size st.rc ln off f
+    let s := match r1.2 with
+      | .ret d e => s!"{d.length}:{showBytes d}:{showRErr e}"
+      | .panic => "panic"
+    ({ st with rc := r1.1 }, mark (r1.2 == r2.2 && canon r1.1 == canon r2.1) s)
+  | _ => (st, "bad-op")
+
 def run (lines : Array String) : IO Unit := do
   let out ← IO.getStdout
-  for _ in lines do
-    out.putStrLn "unimplemented"
+  let mut st : St := {}
+  for l in lines do
+    let (st', o) := step st l
+    st := st'
+    out.putStrLn o
 
 end DrvC17
